@@ -60,6 +60,10 @@ PROPS["C04"] = {
 }
 
 
+# properties whose check is not green yet are not claimed in MANIFEST.json
+NOT_YET = ["C01", "C09", "C10", "C11", "C12", "C13", "C15"]
+
+
 def select(pid, tier, seed):
     out = []
     for h in PROPS[pid]["harnesses"]:
